@@ -1080,3 +1080,47 @@ pub fn loopgood_exit_continue_checks_test(ys: &[i32], start: usize, threshold: i
     }
     seen
 }
+
+// ---- return summaries of trait methods: closed (crate-private) traits only ---------------------------------------------
+
+mod closed_trait {
+    pub trait Width {
+        fn width(&self) -> u32;
+    }
+    pub struct Narrow(pub u8);
+    pub struct Wide(pub u16);
+    impl Width for Narrow {
+        fn width(&self) -> u32 {
+            self.0 as u32
+        }
+    }
+    impl Width for Wide {
+        fn width(&self) -> u32 {
+            self.0 as u32
+        }
+    }
+}
+
+// the trait cannot be named outside this crate: every impl is in sight, each returns at most 65535
+fn good_closed_trait_plus_one_impl<T: closed_trait::Width>(x: &T) -> u32 {
+    x.width() + 1
+}
+
+pub fn closed_trait_entry(a: u8, b: u16) -> u32 {
+    good_closed_trait_plus_one_impl(&closed_trait::Narrow(a)).wrapping_add(good_closed_trait_plus_one_impl(&closed_trait::Wide(b)))
+}
+
+// an exported trait can be implemented downstream with any return value
+pub trait OpenWidth {
+    fn width(&self) -> u32;
+}
+
+impl OpenWidth for u8 {
+    fn width(&self) -> u32 {
+        *self as u32
+    }
+}
+
+pub fn bad_open_trait_plus_one<T: OpenWidth>(x: &T) -> u32 {
+    x.width() + 1
+}
